@@ -670,10 +670,24 @@ def rule_streamed_default_is_yielded(repo: Repo, rep, rule: str = "R13.12") -> N
     # the wildcard arm: `write_line("case _:...")` followed (same block) by `if <flag>: <strategy return> else: raise`
     flag = None
     site = None
+
+    def _writes_raise(b: ast.AST) -> bool:
+        """a `raise ...` line is written: directly, or by a helper of the class whose body writes one (`self._write_http_error_raise(...)`)"""
+        for c in calls_in(b):
+            if isinstance(c.func, ast.Attribute) and c.func.attr == "write_line" and c.args:
+                a0 = c.args[0]
+                txt = const_str(a0) if const_str(a0) is not None else ("".join(v.value for v in a0.values if isinstance(v, ast.Constant) and isinstance(v.value, str)) if isinstance(a0, ast.JoinedStr) else "")
+                if txt.lstrip().startswith("raise "):
+                    return True
+            if isinstance(c.func, ast.Attribute) and gen.cls is not None and c.func.attr in gen.cls.methods and c.func.attr != gen.name and not c.func.attr.startswith("_write_strategy"):
+                h = gen.cls.methods[c.func.attr]
+                if _writes_raise(h.node):
+                    return True
+        return False
+
     for st in own_nodes(gen.node):
         if isinstance(st, ast.If) and isinstance(st.test, ast.Name) and any(
-                isinstance(c.func, ast.Attribute) and c.func.attr == "_write_strategy_based_return" for b in st.body for c in calls_in(b)) and any(
-                isinstance(c.func, ast.Attribute) and c.func.attr == "write_line" and c.args and (const_str(c.args[0]) or "").lstrip().startswith("raise ") for b in st.orelse for c in calls_in(b)):
+                isinstance(c.func, ast.Attribute) and c.func.attr == "_write_strategy_based_return" for b in st.body for c in calls_in(b)) and any(_writes_raise(b) for b in st.orelse):
             flag, site = st.test.id, st
     if flag is None:
         raise AnalysisError(f"{rule}: the wildcard arm `if <flag>: <strategy return> else: raise` of generate_response_handling was not found (anchor)")
